@@ -17,6 +17,7 @@ def run(tier):
     c.deadline = 110 if tier == "quick" else 1500
     c.assumptions = ["lines stay far below the reader's 1024-byte buffer (as the property states)", "fmemopen streams behave like files for fgets"]
     b = _build()
+    c.builds_done()
     plan = [("reader L<=2, full alphabet", ["--mode", "reader", "--lines", 2]), ("validators, <=3 edges", ["--mode", "validators", "--max-edges", 3])]
     if tier == "thorough":
         plan += [("reader L<=3, u,v in 1..3, 3 weight spellings, <=1 comment line", ["--mode", "reader", "--lines", 3, "--maxv", 3, "--nweights", 3, "--max-comments", 1]),
